@@ -8,7 +8,24 @@ A ground truth is a list of variables:
   {"kind": "packed", "slot": s, "fields": [(byte_offset, byte_width), ...]}  (fields tile the 32 bytes, LSB first)
 Every variable gets its accesses (read, write or both) in separate branches of a calldata-selector dispatcher.
 """
-from . import evm
+from . import evm, keccak
+
+_SPECIAL = None
+
+
+def special_hash_slots():
+    """Slots below 10000 whose keccak has an extreme byte pattern (boundary values for a pre-folded hash literal):
+    leading zero byte(s), trailing zero byte, smallest / largest hashes."""
+    global _SPECIAL
+    if _SPECIAL is None:
+        table = keccak.slot_hash_table()
+        items = sorted(table.items())
+        out = {i for h, i in items[:12]} | {i for h, i in items[-12:]}
+        out |= {i for h, i in items if h >> 248 == 0}
+        out |= {i for h, i in items if h & 0xff == 0}
+        out |= {i for h, i in items if (h >> 248) == 0xff}
+        _SPECIAL = sorted(out)
+    return _SPECIAL
 
 ADDR_MASK = (1 << 160) - 1
 
@@ -53,7 +70,11 @@ def emit_read(a, var, rng):
             a.emit(("push", ADDR_MASK, 20), "AND")
         a.emit(0, "MSTORE")
     elif kind == "dynarray":
-        a.emit(var["slot"] if var["slot"] else ("push", 0, 1), 0, "MSTORE", 0x20, 0, "SHA3")
+        if var.get("prefolded"):
+            # the compiler has folded keccak(slot) into a literal (minimal PUSH width, as solc emits it)
+            a.emit(("push", keccak.keccak_words(var["slot"]), None))
+        else:
+            a.emit(var["slot"] if var["slot"] else ("push", 0, 1), 0, "MSTORE", 0x20, 0, "SHA3")
         a.emit(4, "CALLDATALOAD")
         if rng.random() < 0.5:
             a.emit("SWAP1")
@@ -83,7 +104,10 @@ def emit_write(a, var, rng):
         a.emit("SSTORE")
     elif kind == "dynarray":
         a.emit(36, "CALLDATALOAD")
-        a.emit(var["slot"] if var["slot"] else ("push", 0, 1), 0, "MSTORE", 0x20, 0, "SHA3")
+        if var.get("prefolded"):
+            a.emit(("push", keccak.keccak_words(var["slot"]), None))
+        else:
+            a.emit(var["slot"] if var["slot"] else ("push", 0, 1), 0, "MSTORE", 0x20, 0, "SHA3")
         a.emit(4, "CALLDATALOAD", "ADD", "SSTORE")
     elif kind == "packed" and var.get("write_style") in ("single-left", "single-right"):
         # all fields combined into one word and stored with a single SSTORE (struct initialisation); the or-tree
@@ -164,6 +188,14 @@ def random_ground_truth(rng, nvars=None, slot_pool=None, kinds=None):
                 break
         kind = rng.choice(kinds)
         var = {"kind": kind, "slot": s}
+        if kind == "dynarray" and slot_pool is None and rng.random() < 0.4:
+            var["prefolded"] = True
+            if rng.random() < 0.6:
+                cand = [x for x in special_hash_slots() if x not in used]
+                if cand:
+                    used.discard(s)
+                    var["slot"] = rng.choice(cand)
+                    used.add(var["slot"])
         if kind == "mapping":
             d = rng.choice([1, 1, 2, 2, 3, 4])
             var["keys"] = [rng.choice(["word", "addr"]) for _ in range(d)]
